@@ -65,6 +65,8 @@ class QEval:
             return NONE
         if tag == 'list':
             return [self.ev(x) for x in t[1]]
+        if tag == 'tuple':
+            return tuple(self.ev(x) for x in t[1])
         if tag == 'sel':
             v = self.ev(t[2])
             if not isinstance(v, list):
@@ -141,6 +143,8 @@ class QEval:
 
     def pat_matches(self, pat, v):
         k = pat[0]
+        if k == 'not':
+            return not self.pat_matches(pat[1], v)
         if k in ('wild', 'bind'):
             return True
         if k == 'lit':
@@ -234,3 +238,35 @@ class QEval:
 
 def default_is_qualifiers(t):
     return t[0] == 'field' and t[3] in ('qualifiers',)
+
+
+def select_leaf(qe, t):
+    """the alternative of term t that is taken under the assignment of qe (conditions and scrutinees are evaluated,
+    values are not); raises Undecided when the choice cannot be made"""
+    while True:
+        tag = t[0]
+        if tag == 'if':
+            c = qe.ev(t[1])
+            if c is True:
+                t = t[2]
+            elif c is False:
+                t = t[3]
+            else:
+                raise Undecided('non-bool condition')
+        elif tag == 'match':
+            s = qe.ev(t[1])
+            for pat, arm in t[2]:
+                if qe.pat_matches(pat, s):
+                    t = arm
+                    break
+            else:
+                raise Undecided('no arm matches')
+        elif tag == 'join':
+            vals = {select_leaf(qe, m) for m in t[1]}
+            if len(vals) != 1:
+                raise Undecided('join of different values')
+            return next(iter(vals))
+        elif tag == 'early':
+            t = t[1]
+        else:
+            return t
